@@ -477,6 +477,18 @@ func allBefore(evA, evB []event) bool {
 	return true
 }
 
+// anyBefore: some event of A happens before some event of B on a path that executes both.
+func anyBefore(evA, evB []event) bool {
+	for _, a := range evA {
+		for _, b := range evB {
+			if before(a, b) {
+				return true
+			}
+		}
+	}
+	return false
+}
+
 func (w *World) calleeOrNil(c *ssa.Call) *ssa.Function {
 	if f := c.Call.StaticCallee(); f != nil {
 		return f
